@@ -45,13 +45,17 @@ class blockiterator(object):
             else:
                 break
         if padding:
+            cnt = self.bitcnt
             nPi = self.lastblock(Pi,**kargs)
             b,lastb= nPi[:self.blocklen],nPi[self.blocklen:]
+            if self.bitcnt==cnt:
+                # no message bit left for this call: b carries padding only
+                self.bitcnt = 0
             yield b
             if len(lastb)>0:
                 self.bitcnt = 0
                 yield lastb
-        else:
+        elif bitlen>0:
             assert nc==bitlen
             self.bitcnt = start+nc
             yield Pi
